@@ -394,6 +394,7 @@ type checkReport struct {
 	solverMs         int64
 	eng              *Engine
 	missing          []string
+	Bounded          []*boundedResult
 }
 
 // propertyFunctions: functions whose contracts carry a clause tagged with the
@@ -570,6 +571,11 @@ func (eng *Engine) checkProperty(prop string, timeoutMs int, all_ bool, verbose 
 		}
 	}
 	eng.solveAll(toSolve, timeoutMs, all)
+	for _, bc := range boundedRegistry {
+		if seen[bc.Key] {
+			rep.Bounded = append(rep.Bounded, eng.runBounded(bc))
+		}
+	}
 	if verbose {
 		fmt.Fprintf(os.Stderr, "solve phase: %.1fs for %d obligations\n", time.Since(tSolve).Seconds(), len(rep.All))
 		type st struct {
@@ -782,6 +788,16 @@ func (rep *checkReport) finish(prop string, writeEvidence bool) int {
 		fmt.Printf("  failed obligation: %s [%s] %s\n", g, os_[0].Pos, os_[0].Text)
 		code = 1
 	}
+	boundedFailed := 0
+	for _, r := range rep.Bounded {
+		if r.Failed {
+			path := eng.writeBoundedReplay(prop, r)
+			fmt.Printf("VIOLATION property=%s replay=%s\n", prop, path)
+			fmt.Printf("  failed bounded check of the real function %s: input %s\n", r.Check.Key, trunc(r.Input, 600))
+			code = 1
+			boundedFailed++
+		}
+	}
 	for _, m := range rep.missing {
 		path := eng.writeReplayText(prop, "missing-"+m, "the function "+m+" that carries clauses of "+prop+" no longer exists; the property cannot be established")
 		fmt.Printf("VIOLATION property=%s replay=%s no-failing-input-found\n", prop, path)
@@ -798,7 +814,7 @@ func (rep *checkReport) finish(prop string, writeEvidence bool) int {
 		code = 3
 	}
 	if writeEvidence {
-		rep.writeEvidence(prop, len(order))
+		rep.writeEvidence(prop, len(order)+boundedFailed)
 	}
 	n, scope := 0, 0
 	for _, o := range rep.All {
@@ -810,8 +826,19 @@ func (rep *checkReport) finish(prop string, writeEvidence bool) int {
 			n++
 		}
 	}
-	fmt.Printf("%s: %d obligations, %d discharged, %d violated groups, %d known findings, %d not claimed, %.1fs\n",
-		prop, scope, n, len(order), len(printed), len(rep.NotClaimed), rep.WallS)
+	bnote := ""
+	for _, r := range rep.Bounded {
+		switch {
+		case r.Failed:
+			bnote += fmt.Sprintf("; bounded check of %s FAILED", r.Check.Key)
+		case r.Ran:
+			bnote += fmt.Sprintf("; bounded check of %s passed on %d cases", r.Check.Key, r.Cases)
+		default:
+			bnote += fmt.Sprintf("; bounded check of %s did not run", r.Check.Key)
+		}
+	}
+	fmt.Printf("%s: %d obligations, %d discharged, %d violated groups, %d known findings, %d not claimed, %.1fs%s\n",
+		prop, scope, n, len(order)+boundedFailed, len(printed), len(rep.NotClaimed), rep.WallS, bnote)
 	return code
 }
 
@@ -948,6 +975,13 @@ func (rep *checkReport) writeEvidence(prop string, violations int) {
 			"samples":       samples,
 		},
 		Assumptions: append(append([]string{}, assumed...), abstr...),
+	}
+	if len(rep.Bounded) > 0 {
+		var bs []map[string]any
+		for _, r := range rep.Bounded {
+			bs = append(bs, r.evidence())
+		}
+		ev.Coverage["bounded_checks"] = bs
 	}
 	if ev.Assumptions == nil {
 		ev.Assumptions = []string{}
